@@ -170,16 +170,17 @@ class _SocketHub:
         """Recv a message to a given socket"""
         t_start = timer()
         while True:
+            # Check and pop under one lock acquisition: with two threads receiving on the
+            # same socket both could see the last message and the slower one got an
+            # IndexError from pop instead of waiting (or reporting emptiness).
             with self._lock:
                 messages = self._messages[socket.key]
-            if len(messages) == 0:
-                if not block:
-                    raise RuntimeError(f"No message to receive on socket {socket.key}")
-            else:
-                with self._lock:
+                if len(messages) > 0:
                     msg = messages.pop(0)
-                self._logger.debug(f"Got message {msg} for socket {socket.key}")
-                return msg
+                    self._logger.debug(f"Got message {msg} for socket {socket.key}")
+                    return msg
+            if not block:
+                raise RuntimeError(f"No message to receive on socket {socket.key}")
             if timeout is not None:
                 t_now = timer()
                 t_elapsed = t_now - t_start
